@@ -15,8 +15,15 @@ with vcheck.Lock():
         rc, out = vcheck.gen_tables(cfg["id"])
         print(out.strip())
     vcheck.refresh_coq_project()
-    rc, out = vcheck.sh(["make", "-j%d" % vcheck.NCPU, "-k"], cwd=vcheck.COQ, timeout=10800)
-    print(out[-8000:])
+    import subprocess
+    sys.stdout.flush()
+    # streamed, so that a slow or looping file is visible in the log; per-file timeout
+    try:
+        rc = subprocess.run(["make", "-j%d" % vcheck.NCPU, "-k", "COQC=timeout %d coqc" % vcheck.COQC_TIMEOUT],
+                            cwd=vcheck.COQ, timeout=3000).returncode
+    except subprocess.TimeoutExpired:
+        rc = 124
+    print("coq build rc=%d" % rc)
     # every claimed property must have its theorems and evaluator compiled
     for cfg in cfgs:
         for f in (cfg["props_file"][:-2] + ".vo", cfg.get("run_target")):
